@@ -711,6 +711,26 @@ def check(run, project):
                                         "tpmstream.spec.commands.params_common", "tpmstream.spec.common.values",
                                         "tpmstream.spec.common.base_type", "tpmstream.spec.common.tpm_rc"),
                    what="an internal error instead of a documented outcome")
+    from .shared import undefined_names
+    covered, _why = lg.rule_tables_cover()
+
+    def dead_in(q, fn):
+        """handlers of a failed type-table lookup `try: <x> = <table>[command_code] / except KeyError`: the tables cover every
+        TPM_CC member (the ledger's table obligation, re-evaluated here), so for the command codes the property quantifies over
+        the handler cannot be entered"""
+        if not covered or q != "process_response":
+            return []
+        out = []
+        for t in ast.walk(fn):
+            if isinstance(t, ast.Try) and len(t.body) == 1 and isinstance(t.body[0], ast.Assign) and isinstance(t.body[0].value, ast.Subscript) \
+                    and norm(t.body[0].value.slice) == "command_code":
+                out += [h for h in t.handlers if h.type is not None and norm(h.type) == "KeyError"]
+        return out
+    undefined_names(run, project, "X5", ("tpmstream.io.binary.marshal", "tpmstream.common.constraints", "tpmstream.common.error",
+                                         "tpmstream.common.event", "tpmstream.common.path", "tpmstream.common.util",
+                                         "tpmstream.spec.commands.params_common", "tpmstream.spec.common.values",
+                                         "tpmstream.spec.common.base_type", "tpmstream.spec.common.tpm_rc"),
+                    what="an internal error instead of a documented outcome", dead_in=dead_in)
     run.require(n_calls >= 40, f"X3: only {n_calls} resolvable calls in the decode core")
     x2(run, lg)
     run.floor("X1", 70, "failure sites")
